@@ -65,6 +65,12 @@ open_("D18a", "C16", "integer division or modulo by zero panics (types/core.rs:1
 open_("D18f", "C16", "an expression nested a few thousand levels deep (NOT NOT ..., parentheses) overflows the stack: the process aborts", "O-live:process-died", "nesting_deeper_than_200", "findings/D18f-deeply-nested-expression-overflows-the-stack.json")
 open_("D35", "C16", "INSERT INTO t SELECT * FROM t never returns (the scan sees the rows it inserts)", "O-live:hang", "insert_select_from_same_table", "findings/D35-insert-select-from-same-table-never-returns.json")
 
+# ---- open findings: storage shapes (C12 and everything that stores rows) ----
+open_("D31b", "C12", "rows whose payload needs overflow pages break the tree within a handful of inserts (panic at storage/core/buffer.rs:570, 'Buffer overflow ... on a btreepage')", "O-res", "rows_with_overflow_chains", "findings/D31b-rows-with-overflow-chains-break-the-tree-within-a-few-inserts.json")
+open_("D17b", "C15", "ALTER TABLE ... DROP COLUMN of the last column can leave the table unreadable (panic at storage/tuple.rs:297)", "O-state", "alter_drop_column", "findings/D17b-alter-drop-last-column-leaves-table-unreadable.json")
+open_("X1b", "C15", "CREATE UNIQUE INDEX in autocommit while an older session is open: that session can no longer use the table ('Table not found N')", "O-res", "create_index_inside_session", "findings/X1b-create-index-while-older-session-open-hides-table-from-it.json")
+open_("X3", "C15", "a UNIQUE index over columns of different types listed out of table order panics (types/core.rs:333) on the first duplicate probe", "O-res", "mixed_type_index_out_of_table_order", "findings/X3-multi-column-index-out-of-table-order-panics-on-duplicate.json")
+
 # ---- open findings: threads (C14) ----
 open_("T1", "C14", "two client threads inserting into the same table lose acknowledged rows (final COUNT(*) below the number of acknowledged inserts; COUNT(*) below what was acknowledged before it started)", "O-state", "concurrent_inserts_into_one_table", "findings/T1-concurrent-inserts-into-one-table-lose-acknowledged-rows.json")
 
